@@ -51,6 +51,9 @@ CLAIMED = {
  "C16": dict(cat="model_checking", tech=MC + " with a per-state query alphabet against a reference filter over the raw store dump", ref="DESIGN.md §5 C16",
    text="is_matched flags vs contribution to the bidder's receipt and published matched price vs clearing price at every settlement (extended rounds with outbid provisional winners included), released flags vs payments, results frozen after settlement; in every distinct state of the query scenarios every by-id and list query with every filter combination and three pagination modes is compared with the stored objects",
    note=TRUST + "; interpretation I6 (a bid received coins iff it contributed under price-then-id priority and its bidder received coins); two listed known findings (ListAllowedBidder / ListVestingQueue ignore auction_id) cannot be repaired without failing the repository's own unedited tests"),
+ "C10": dict(cat="model_checking", tech=MC + "; the message is in the menu of every state of a process that links the application like the node binary does", ref="DESIGN.md §5 C10",
+   text="MsgAddAllowedBidder signed by each bidder and an outsider is delivered through the application's message router in every explored state of the fixed / batch / multi-auction lifecycle scenarios and must be rejected with the allow-list byte-identical; no other message changes the allow-list; every accepted bid's signer is listed in the pre-state and every stored bid's bidder is listed in every state",
+   note=TRUST + "; configuration covered: the import graph of cmd/fundraisingd (app + cmd packages, nothing from testutil/simulation imported by the harness itself); the -X link flag documented for testing builds is by definition out of scope"),
  "C07": dict(cat="model_checking", tech=MC + " + exhaustive single-fault enumeration over the bank calls of every distinct effective block",
    ref="DESIGN.md §5 C07",
    text="(a) every explored state of the lifecycle and multi-auction scenarios x every later block instant: the module's registered block hook returns nil and does not panic; (b) for every distinct (state, block time) whose block calls the bank, each call index in turn returns an injected error and the hook must return an error wrapping it",
